@@ -14,8 +14,6 @@ From VLS Require Export Base.Codec.
 Import ListNotations.
 Open Scope N_scope.
 
-Definition MAX_MESSAGE_SIZE : N := 131072.   (* msgs.rs: 128 * 1024; checked by gen_wire.py *)
-
 (** ** PSBT view *)
 
 Record txout := { o_value : N; o_spk : bytes }.
@@ -24,8 +22,9 @@ Record prevtx := { pt_txid : bytes; pt_outs : list txout }.
 Record pinput := { i_nwu : option prevtx; i_wu : option txout }.
 (** what it reads of an input of the unsigned transaction *)
 Record txin := { ti_txid : bytes; ti_vout : N; ti_sig_empty : bool; ti_wit_empty : bool }.
-(** [p_tx]: the unsigned transaction (its serialisation); [p_id]: everything else in the PSBT *)
-Record psbt := { p_id : bytes; p_tx : bytes; p_txins : list txin; p_inputs : list pinput }.
+(** the part of a PSBT the streamed decoder looks at: the unsigned transaction ([p_tx], its
+    serialisation), what it reads of the transaction's inputs, and the per-input maps *)
+Record psbt := { p_tx : bytes; p_txins : list txin; p_inputs : list pinput }.
 
 (** rust-bitcoin guarantees one PSBT input per transaction input *)
 Definition psbt_ok (p : psbt) : bool := Nat.eqb (length (p_txins p)) (length (p_inputs p)).
@@ -85,7 +84,7 @@ Definition streamed_post (p : psbt) : option (psbt * list bool) :=
   else match post_inputs (p_txins p) (p_inputs p) with
        | None => None
        | Some (ins', flags) =>
-           Some ({| p_id := p_id p; p_tx := p_tx p; p_txins := p_txins p; p_inputs := ins' |}, flags)
+           Some ({| p_tx := p_tx p; p_txins := p_txins p; p_inputs := ins' |}, flags)
        end.
 
 (** reference, read off the PSBT that was encoded: the previous output an input designates
@@ -128,8 +127,10 @@ Record blob_ops := {
   TxT : Type;                                  (* bitcoin::Transaction *)
   tx_ser : TxT -> bytes;
   tx_parse : bytes -> option TxT;              (* consensus_decode of exactly this window *)
-  psbt_ser : psbt -> bytes;                    (* Psbt::serialize *)
-  psbt_parse : bytes -> option psbt;           (* Psbt::deserialize of exactly this window *)
+  PsbtT : Type;                                (* bitcoin::psbt::Psbt *)
+  psbt_view : PsbtT -> psbt;                   (* the part psbt.rs reads (a function of the PSBT) *)
+  psbt_ser : PsbtT -> bytes;                   (* Psbt::serialize *)
+  psbt_parse : bytes -> option PsbtT;          (* Psbt::deserialize of exactly this window *)
   ProofT : Type;                               (* txoo::proof::TxoProof *)
   proof_ser : ProofT -> bytes;
   proof_dec : dec_t ProofT;                    (* self-delimiting consensus_decode *)
@@ -137,7 +138,7 @@ Record blob_ops := {
 
 Record blob_laws (B : blob_ops) : Prop := {
   tx_rt : forall t, tx_parse B (tx_ser B t) = Some t;
-  psbt_rt : forall p, psbt_ok p = true -> psbt_parse B (psbt_ser B p) = Some p;
+  psbt_rt : forall p, psbt_parse B (psbt_ser B p) = Some p;
   proof_rt : forall p rest, proof_dec B (proof_ser B p ++ rest) = Some (p, rest);
 }.
 
@@ -150,24 +151,35 @@ Section BlobCodecs.
   Definition wf_ws_tx : TxT B -> bool := wf_withsize (tx_ser B) (fun _ => true).
 
   (** WithSize<PsbtWrapper> *)
-  Definition enc_ws_psbt : psbt -> bytes := enc_withsize (psbt_ser B).
-  Definition dec_ws_psbt : dec_t psbt := dec_withsize (psbt_parse B).
-  Definition wf_ws_psbt : psbt -> bool := wf_withsize (psbt_ser B) psbt_ok.
+  Definition enc_ws_psbt : PsbtT B -> bytes := enc_withsize (psbt_ser B).
+  Definition dec_ws_psbt : dec_t (PsbtT B) := dec_withsize (psbt_parse B).
+  Definition wf_ws_psbt : PsbtT B -> bool := wf_withsize (psbt_ser B) (fun _ => true).
 
-  (** WithSize<StreamedPSBT>: same bytes; the decoder additionally runs [streamed_post] and
-      refuses when it fails.  The model value is the PSBT that was encoded; the Rust value
-      after decoding is [streamed_post] of it (theorems C19_psbt_sound and C19_psbt_accepts). *)
-  Definition parse_streamed (w : bytes) : option psbt :=
-    bind (psbt_parse B w) (fun p => match streamed_post p with Some _ => Some p | None => None end).
-  Definition enc_ws_streamed : psbt -> bytes := enc_withsize (psbt_ser B).
-  Definition dec_ws_streamed : dec_t psbt := dec_withsize parse_streamed.
-  Definition wf_ws_streamed : psbt -> bool := wf_withsize (psbt_ser B) streamable.
+  (** WithSize<StreamedPSBT>: same bytes; the decoder additionally runs [streamed_post] on
+      what it parsed and refuses when that fails.  The model value is the PSBT that was
+      encoded; the Rust value after decoding is [streamed_post] of its view (theorems
+      C19_psbt_sound and C19_psbt_accepts). *)
+  Definition parse_streamed (w : bytes) : option (PsbtT B) :=
+    bind (psbt_parse B w) (fun x =>
+      match streamed_post (psbt_view B x) with Some _ => Some x | None => None end).
+  Definition enc_ws_streamed : PsbtT B -> bytes := enc_withsize (psbt_ser B).
+  Definition dec_ws_streamed : dec_t (PsbtT B) := dec_withsize parse_streamed.
+  Definition wf_ws_streamed : PsbtT B -> bool :=
+    wf_withsize (psbt_ser B) (fun x => streamable (psbt_view B x)).
 
   (** DebugTxoProof *)
   Definition enc_proof : ProofT B -> bytes := proof_ser B.
   Definition dec_proof : dec_t (ProofT B) := proof_dec B.
   Definition wf_proof (_ : ProofT B) : bool := true.
 End BlobCodecs.
+
+(** ** bitcoin::OutPoint (consensus encoding: txid, then vout little-endian) *)
+Record OutPoint := { op_txid : bytes; op_vout : N }.
+Definition enc_OutPoint (o : OutPoint) : bytes := enc_fixed 32 (op_txid o) ++ enc_u32le (op_vout o).
+Definition dec_OutPoint : dec_t OutPoint := fun bs =>
+  bind (dec_fixed 32 bs) (fun '(t, r) => bind (dec_u32le r) (fun '(v, r') =>
+    Some ({| op_txid := t; op_vout := v |}, r'))).
+Definition wf_OutPoint (o : OutPoint) : bool := wf_fixed 32 (op_txid o) && wf_u32 (op_vout o).
 
 (** ** registry *)
 
@@ -183,10 +195,14 @@ Fixpoint lookup {M} (table : list (entry M)) (ty : N) : option (entry M) :=
   | e :: r => if e_id e =? ty then Some e else lookup r ty
   end.
 
-(** msgs::from_vec: length check, type prefix, dispatch, no trailing bytes *)
-Definition from_vec {M} (table : list (entry M)) (bs : bytes) : option (decoded M) :=
+Definition dec_map {A M} (f : A -> M) (d : dec_t A) : dec_t M :=
+  fun bs => match d bs with Some (x, r) => Some (f x, r) | None => None end.
+
+(** msgs::from_vec: length check (MAX_MESSAGE_SIZE = [maxsz], read from the source), type
+    prefix, dispatch, no trailing bytes *)
+Definition from_vec {M} (maxsz : N) (table : list (entry M)) (bs : bytes) : option (decoded M) :=
   if lenN bs <? 2 then None
-  else if MAX_MESSAGE_SIZE <? lenN bs then None
+  else if maxsz <? lenN bs then None
   else bind (dec_u16 bs) (fun '(ty, payload) =>
     match lookup table ty with
     | Some e => match e_dec e payload with
